@@ -400,6 +400,40 @@ fn thread_index_sim() -> (bool, usize) {
     (ok, k)
 }
 
+/// `broadcast` from outside the pool and from a worker (nested in a parallel iterator): one result per
+/// worker, in index order, each run on the worker it names. Then `spawn_broadcast` followed by a parallel
+/// loop: every worker's copy has run by the time a later blocking `broadcast` returns (per-worker FIFO).
+fn broadcast_sim() -> (bool, usize, u8) {
+    use sim_rayon::prelude::*;
+    use std::sync::atomic::{AtomicUsize, Ordering};
+    let k = sim_rayon::current_num_threads();
+    let outer = sim_rayon::broadcast(|ctx| (ctx.index(), ctx.num_threads(), sim_rayon::current_thread_index()));
+    let mut ok = outer.len() == k && outer.iter().enumerate().all(|(i, (ix, n, cur))| *ix == i && *n == k && *cur == Some(i));
+    let nested: Vec<Vec<usize>> = (0..3usize).into_par_iter().map(|_| sim_rayon::broadcast(|ctx| ctx.index())).collect();
+    ok &= nested.iter().all(|v| v.len() == k && v.iter().enumerate().all(|(i, x)| *x == i));
+    static HITS: AtomicUsize = AtomicUsize::new(0);
+    static WARM: [std::sync::atomic::AtomicBool; 64] = [const { std::sync::atomic::AtomicBool::new(false) }; 64];
+    HITS.store(0, Ordering::SeqCst);
+    for w in WARM.iter() {
+        w.store(false, Ordering::SeqCst);
+    }
+    sim_rayon::spawn_broadcast(|ctx| {
+        WARM[ctx.index() % 64].store(true, Ordering::SeqCst);
+        HITS.fetch_add(1, Ordering::SeqCst);
+    });
+    // work that may overtake the warm-up on a worker (that is the point of the model): did the item's own
+    // worker already run its copy?
+    let seen: Vec<bool> = (0..64usize)
+        .into_par_iter()
+        .map(|_| WARM[sim_rayon::current_thread_index().unwrap_or(0) % 64].load(Ordering::SeqCst))
+        .collect();
+    // 0 = every item ran on a warmed-up worker, 1 = none did, 2 = mixed
+    let overtaken = if seen.iter().all(|b| *b) { 0 } else if seen.iter().all(|b| !*b) { 1 } else { 2 };
+    let _ = sim_rayon::broadcast(|_| ());
+    ok &= HITS.load(Ordering::SeqCst) == k;
+    (ok, k, overtaken)
+}
+
 fn main() {
     let a: Vec<String> = std::env::args().collect();
     let seed: u64 = a.get(1).and_then(|s| s.parse().ok()).unwrap_or(1);
@@ -486,6 +520,7 @@ fn main() {
     let mut distinct_unstable = BTreeSet::new();
     let mut distinct_fsum = BTreeSet::new();
     let mut distinct_find_any = BTreeSet::new();
+    let mut distinct_broadcast = BTreeSet::new();
     for k in 0..per.max(60) {
         let mut s = seed ^ 0xABCD_0000 ^ k;
         let n = [1usize, 2, 5, 9, 16, 33, 70][(sm(&mut s) % 7) as usize];
@@ -586,6 +621,18 @@ fn main() {
             bad += 1;
             mismatch("current_thread_index", k, format!("k={}", kk));
         }
+        let (ok, kk, overtaken) = under_sim(sd ^ 12, broadcast_sim);
+        evals += 1;
+        if !ok {
+            bad += 1;
+            mismatch("broadcast", k, format!("k={}", kk));
+        }
+        if std::env::var("MC_DEBUG").is_ok() {
+            eprintln!("broadcast k={} overtaken={}", kk, overtaken);
+        }
+        if kk >= 2 {
+            distinct_broadcast.insert(overtaken);
+        }
     }
     // the clock seam: std's clocks, read on a simulated thread, follow the simulator's offset
     {
@@ -640,6 +687,7 @@ fn main() {
         ("unstable sort permutes tied keys in some schedule", distinct_unstable.contains(&true)),
         ("float sum differs in the last bits in some schedule", distinct_fsum.contains(&false)),
         ("find_any returns a later match in some schedule", distinct_find_any.contains(&false)),
+        ("an item overtakes its own worker's spawn_broadcast job in some schedule, and in some it does not", distinct_broadcast.len() >= 2),
     ];
     for (what, hit) in reach {
         if !hit {
